@@ -182,7 +182,7 @@ func checkResultVerified(c *Ctx, r *Run) {
 					}
 				}
 				for _, g := range rejectGuards(fn) {
-					if !strings.HasSuffix(g.decider, ".Verify") || g.iff == nil || g.passBlk == nil {
+					if !decHasSuffix(g.decider, ".Verify") || g.iff == nil || g.passBlk == nil {
 						continue
 					}
 					if !(g.passBlk == call.Block() || g.passBlk.Dominates(call.Block())) {
@@ -216,7 +216,7 @@ func checkResultVerified(c *Ctx, r *Run) {
 								continue
 							}
 							for _, g := range rejectGuards(vmf) {
-								if strings.HasSuffix(g.decider, ".Verify") && guardCoversAccepts(g) && containsField(g.fields, "body") {
+								if decHasSuffix(g.decider, ".Verify") && guardCoversAccepts(g) && containsField(g.fields, "body") {
 									judge(vmf, g, false)
 									how = "in " + c.FuncName(vmf) + " before StoreMessage kept it (handler order, C03 OB-H)"
 								}
